@@ -181,6 +181,54 @@ impl<'a> Gen<'a> {
                 }
             })
             .collect();
+        // now and then a run of bytes that means something in *another* representation (UTF-8 sequences, byte-order
+        // marks, line ends, escape / format sequences) - at the start, at the end or somewhere inside
+        if n >= 2 && rng.chance(1, 6) {
+            const FOREIGN: &[&[u8]] = &[
+                &[0xe2, 0x82, 0xac],
+                &[0xef, 0xbb, 0xbf],
+                &[0xc3, 0xa4],
+                &[0xc3, 0xb6],
+                &[0xc3, 0xbc],
+                &[0xc3, 0x9f],
+                &[0xc3, 0xa9],
+                &[0xe2, 0x80, 0x93],
+                &[0xe2, 0x80, 0x9c],
+                &[0xc2, 0xa0],
+                &[0xf0, 0x9f, 0x99, 0x82],
+                &[0xff, 0xfe],
+                &[0xfe, 0xff],
+                &[0x0d, 0x0a],
+                &[0x0a, 0x0d],
+                &[0x1b, 0x5b, 0x30, 0x6d],
+                &[0x25, 0x73],
+                &[0x7b, 0x7d],
+                &[0x5c, 0x6e],
+                &[0x5c, 0x30],
+                &[0x26, 0x23, 0x33, 0x32, 0x3b],
+            ];
+            let f = *rng.pick(FOREIGN);
+            if f.len() <= n {
+                let mut chars: Vec<char> = s.chars().collect();
+                let at = match rng.below(3) {
+                    0 => 0,
+                    1 => n - f.len(),
+                    _ => rng.below((n - f.len() + 1) as u64) as usize,
+                };
+                for (k, b) in f.iter().enumerate() {
+                    chars[at + k] = CP437[*b as usize];
+                }
+                // pure-ASCII remainder half of the time (so that the whole text is valid in the other representation too)
+                if rng.chance(1, 2) {
+                    for (k, c) in chars.iter_mut().enumerate() {
+                        if (k < at || k >= at + f.len()) && !c.is_ascii_graphic() && *c != ' ' {
+                            *c = 'x';
+                        }
+                    }
+                }
+                s = chars.into_iter().collect();
+            }
+        }
         if n > 0 && !rng.chance(self.cfg.stray_pct, 100) {
             // canonical text does not end in NUL
             while s.ends_with('\0') {
